@@ -13,8 +13,8 @@ t=$(cd $wt && /venv/bin/python -m pytest -q -p no:cacheprovider auth/test/test_a
 echo "pinned: $t" >> $res
 export PYTHONDONTWRITEBYTECODE=1
 if [ -f $d/demo.py ]; then
-  (cd $d && SEED_NUMPY_DIR=$ROOT/build/pydeps SEED_WT=/repo SEED_WORKTREE=/repo SEED_ROOT=/repo REPO_ROOT=/repo timeout 300 /venv/bin/python demo.py /repo > $out/$name.demo.clean 2>&1; echo "demo clean exit $?" >> $res)
-  (cd $d && SEED_NUMPY_DIR=$ROOT/build/pydeps SEED_WT=$wt SEED_WORKTREE=$wt SEED_ROOT=$wt REPO_ROOT=$wt timeout 300 /venv/bin/python demo.py $wt > $out/$name.demo.patched 2>&1; echo "demo patched exit $?" >> $res)
+  (cd $d && SEED_NUMPY_DIR=$ROOT/build/pydeps SEED_WT=/repo SEED_WORKTREE=/repo SEED_ROOT=/repo REPO_ROOT=/repo WORKTREE=/repo timeout 300 /venv/bin/python demo.py /repo > $out/$name.demo.clean 2>&1; echo "demo clean exit $?" >> $res)
+  (cd $d && SEED_NUMPY_DIR=$ROOT/build/pydeps SEED_WT=$wt SEED_WORKTREE=$wt SEED_ROOT=$wt REPO_ROOT=$wt WORKTREE=$wt timeout 300 /venv/bin/python demo.py $wt > $out/$name.demo.patched 2>&1; echo "demo patched exit $?" >> $res)
 else echo "no demo (scenario only)" >> $res; fi
 cd $ROOT
 VERIF_REPO=$wt timeout 3000 ./check $pid --tier quick > $out/$name.check.log 2>&1; rc=$?
